@@ -631,6 +631,52 @@ theorem rangeWrapper_paths_agree (chunks : List Bytes) (b : Nat) (hb : 0 < b) (s
     (rangeWrapIter chunks start len).flatten = (rangeWrapSeek chunks.flatten b start len).flatten := by
   rw [(rangeWrapper_exact_iter chunks start len).1, (rangeWrapper_exact_seek chunks.flatten b hb start len).1]
 
+/-- `FileWrapper` loses nothing on short reads: for every short-read schedule of the underlying
+file object (read(n) returning 1..n bytes although more follows), the items `FileWrapper` yields
+are non-empty and concatenate to exactly the file's remaining bytes — a short block is *not* the
+last one, only an empty read is (seeded change C11-f1). -/
+theorem file_wrapper_yields_all (b : Nat) (hb : 0 < b) (fuel : Nat) (sched : List Nat) (d : Bytes)
+    (h : d.length < fuel) :
+    (fileWrapperItems b fuel sched d).flatten = d ∧ AllNonEmpty (fileWrapperItems b fuel sched d) := by
+  induction fuel generalizing sched d with
+  | zero => omega
+  | succ n ih =>
+    simp only [fileWrapperItems]
+    have hb' : (b == 0) = false := by simp; omega
+    cases hd : d.isEmpty with
+    | true =>
+      have : d = [] := by simpa using hd
+      subst this
+      exact ⟨by simp, by intro c hc; simp at hc⟩
+    | false =>
+      simp only [hb', Bool.or_self, Bool.false_eq_true, ↓reduceIte]
+      have hne : d ≠ [] := by intro e; subst e; simp at hd
+      have hlen : 0 < d.length := List.length_pos_iff.mpr hne
+      have hk : 0 < max 1 (min b (sched.headD b)) := by omega
+      generalize max 1 (min b (sched.headD b)) = k at hk ⊢
+      obtain ⟨h1, h2⟩ := ih sched.tail (d.drop k) (by rw [List.length_drop]; omega)
+      refine ⟨by rw [List.flatten_cons, h1]; exact List.take_append_drop _ d, ?_⟩
+      intro c hc
+      rcases List.mem_cons.mp hc with rfl | hc
+      · intro e
+        have := congrArg List.length e
+        rw [List.length_take, List.length_nil] at this
+        omega
+      · exact h2 c hc
+
+/-- … so a range over a short-reading, non-seekable file is still exact: `_RangeWrapper` over the
+items of `FileWrapper` delivers `data[start : start+len]` for every read schedule. -/
+theorem range_over_short_reads_exact (b : Nat) (hb : 0 < b) (sched : List Nat) (data : Bytes)
+    (start len : Nat) :
+    (rangeWrapIter (fileWrapperItems b (data.length + 1) sched data) start len).flatten
+      = (data.drop start).take len := by
+  rw [(rangeWrapper_exact_iter _ start len).1, (file_wrapper_yields_all b hb _ sched data (by omega)).1]
+
+example : fileWrapperItems 4 11 [2, 3] [1, 2, 3, 4, 5, 6, 7, 8, 9, 10] = [[1, 2], [3, 4, 5], [6, 7, 8, 9], [10]] ∧
+    rangeWrapIter (fileWrapperItems 4 11 [2, 3] [1, 2, 3, 4, 5, 6, 7, 8, 9, 10]) 3 5 = [[4, 5], [6, 7, 8]] := by
+  decide
+
+
 /-! ## the whole response -/
 
 /-- `range_response`, the 206 case: a 206 comes with `Content-Range: bytes a-(b-1)/length`,
